@@ -27,6 +27,13 @@ type c08Case struct {
 }
 
 var c08Positions = []string{"top-rego", "top-regoModule", "top-code-message", "path-rego", "path-regoModule", "under-not", "and-operand", "or-operand", "if", "then", "else", "in-nested", "in-atLeast", "extensions-helper", "extensions-helper-under-nested"}
+
+// c08Broken: the same call inside code that the engine would reject for a second, unrelated reason (a future keyword
+// used as an identifier -> parse error, an unknown function, a type error, an unsafe variable, plain garbage). Such a
+// profile must still be rejected, by whatever error, and nothing may be evaluated: a compile path that falls back or
+// retries after one class of error must not lose the deny-list.
+var c08Broken = []string{"broken:kw-in", "broken:kw-every", "broken:kw-contains", "broken:kw-if", "broken:unknown-function", "broken:type-error", "broken:unsafe-var", "broken:garbage", "broken:import-future-again"}
+
 var c08Syntaxes = []string{"statement", "unify", "assign", "array-compr", "set-compr", "object-compr", "every", "argument", "negated", "some-in"}
 
 func litFor(t types.Type, depth int) string {
@@ -107,6 +114,31 @@ func c08Call(b *ast.Builtin) (call string, hasResult bool) {
 // c08Code returns the Rego lines that use the built-in in the given syntax.
 func c08Code(b *ast.Builtin, syntax string) string {
 	call, hasResult := c08Call(b)
+	if strings.HasPrefix(syntax, "broken:") {
+		kw := map[string]string{"broken:kw-in": "in", "broken:kw-every": "every", "broken:kw-contains": "contains", "broken:kw-if": "if"}[syntax]
+		if kw != "" {
+			if b.Relation {
+				return fmt.Sprintf("%s(%s, [%s, c08v])", b.Name, c08Args[b.Name], kw)
+			}
+			if hasResult {
+				return kw + " = " + call
+			}
+			return kw + " = 1\n" + call
+		}
+		stmt := c08Code(b, "unify")
+		switch syntax {
+		case "broken:unknown-function":
+			return stmt + "\nc08_no_such_function(1)"
+		case "broken:type-error":
+			return stmt + "\ncount(1) == 2"
+		case "broken:unsafe-var":
+			return stmt + "\nc08_unbound > 1"
+		case "broken:garbage":
+			return stmt + "\n)( ]["
+		case "broken:import-future-again":
+			return stmt + "\nimport future.keywords.in"
+		}
+	}
 	if b.Relation {
 		// relation form: walk(x, [path, value])
 		args := c08Args[b.Name]
@@ -214,7 +246,7 @@ func c08Profile(code, position string) string {
 func init() {
 	Register(Meta{
 		ID: "C08", Level: "exploration",
-		Rule:        "B x P x S: B = every built-in registered in the linked engine (ast.Builtins of the OPA version the repository links, so a dependency bump changes B); P = 15 embedding positions of the profile language (top-level rego / regoModule / code+message, under a path as rego / regoModule, under not, and/or operand, if/then/else, inside nested, inside atLeast, a helper in rego_extensions called from a validation, also under nested+not); S = 10 call syntaxes (statement, unification, assignment, array/set/object comprehension, every, argument of another call, negated, some-in; relation form for walk). Arguments are synthesised from the declared type. Denied set F = {http.send, net.lookup_ip_addr, opa.runtime, rego.parse_module, walk}: every (p,s) must be rejected by CompileProfile and by Validate, with zero resolver/dial attempts recorded by the instrumented net.DefaultResolver and loopback listener. All other built-ins are vacuity controls (the same templates must compile). Non-trivial = (builtin, position, syntax) for a denied built-in; distinct by profile text.",
+		Rule:        "B x P x S: B = every built-in registered in the linked engine (ast.Builtins of the OPA version the repository links, so a dependency bump changes B); P = 15 embedding positions of the profile language (top-level rego / regoModule / code+message, under a path as rego / regoModule, under not, and/or operand, if/then/else, inside nested, inside atLeast, a helper in rego_extensions called from a validation, also under nested+not); S = 10 call syntaxes (statement, unification, assignment, array/set/object comprehension, every, argument of another call, negated, some-in; relation form for walk) + 9 doubly-invalid forms for the denied built-ins (the call next to a future keyword used as an identifier, an unknown function, a type error, an unsafe variable, garbage, a repeated import: rejected for whatever reason, nothing evaluated). Arguments are synthesised from the declared type. Denied set F = {http.send, net.lookup_ip_addr, opa.runtime, rego.parse_module, walk}: every (p,s) must be rejected by CompileProfile and by Validate, with zero resolver/dial attempts recorded by the instrumented net.DefaultResolver and loopback listener. All other built-ins are vacuity controls (the same templates must compile). Non-trivial = (builtin, position, syntax) for a denied built-in; distinct by profile text.",
 		Assumptions: []string{"only the five built-ins the property names are required to be denied"},
 	}, c08Gen, c08Run)
 }
@@ -231,6 +263,9 @@ func c08Gen(tier string, emit func(c08Case)) {
 				for _, s := range c08Syntaxes {
 					emit(c08Case{n, p, s, false})
 					emit(c08Case{n, p, s, true})
+				}
+				for _, s := range c08Broken {
+					emit(c08Case{n, p, s, false})
 				}
 			}
 			continue
@@ -338,7 +373,7 @@ func c08Run(c *Ctx, cs c08Case) {
 			c.Outcome("denied built-in ACCEPTED")
 			return
 		}
-		if !strings.Contains(cr.Err.Error(), cs.Builtin) {
+		if !strings.HasPrefix(cs.Syntax, "broken:") && !strings.Contains(cr.Err.Error(), cs.Builtin) {
 			// rejected, but is it because of the deny-list? (a template that is invalid for another reason proves nothing)
 			c.Violate("C08 denied built-in rejected for another reason (template not probing the deny-list)", fmt.Sprintf("builtin=%s position=%s syntax=%s\nerror: %v\ncode: %s", cs.Builtin, cs.Position, cs.Syntax, cr.Err, code), nil)
 		}
